@@ -30,7 +30,9 @@ ASSUMPTIONS = ['cells whose formatting the statement leaves open (dates, numbers
 
 ANSI = re.compile(r'\x1b\[[0-9;:]*m')
 FIELDS = ['id', 'name', 'resource', 'estimate', 'spent', 'start', 'end', 'predecessors', 'successors', 'parent', 'milestone',
-          'tag', 'note', 'NAME', 'Id', 'bogus', 'zzz_unknown', 'min_start']
+          'tag', 'note', 'NAME', 'Id', 'bogus', 'zzz_unknown', 'min_start',
+          # names of Task members that are not data attributes: unknown fields as far as a sheet is concerned
+          'children', 'all_children', 'all_parents', 'wbs', 'clone', 'to_dict', 'print']
 COLORS = ['91m', '92m', '93m', '94m', '95m', '96m', '97m', '37m']
 long_text = st.text(alphabet=st.sampled_from(list('abcXYZ 0123456789_-.,;:|[]()äж中')), min_size=0, max_size=60)
 name_st = st.one_of(st.none(), long_text, st.sampled_from(['T', 'Design', 'a b', '   lead', 'trail   ']))
@@ -197,7 +199,7 @@ def check(case, exclude=True):
                 if got != want:
                     res.v('C20:link-cell-wrong(%s%s)' % (f, ',external' if any(e for _, e in want) else ''), dict(expected=want, cell=seg))
                     return res
-    unknown = any(f in ('bogus', 'zzz_unknown') for f in fields_eff)
+    unknown = any(f in ('bogus', 'zzz_unknown', 'children', 'all_children', 'all_parents', 'wbs', 'clone', 'to_dict', 'print') for f in fields_eff)
     ext_link = any(x.wbs is not t.wbs for t, _ in shown for x in list(t.predecessors) + list(t.successors)) and \
         any(f in ('predecessors', 'successors') for f in fields_eff)
     depth = max(l for _, l in shown) if shown else 0
